@@ -78,6 +78,8 @@ class State:
         s.log = list(self.log)
         s.nfork = self.nfork
         s.env = dict(self.env)
+        if hasattr(self, "divs"):
+            s.divs = list(self.divs)
         return s
 
     def alloc(self, v=None):
@@ -120,6 +122,7 @@ class Program:
         self.free = {}
         self._index_bodies()
         self.const_cache = {}
+        self.constmem = {}
         self.errors = [b for b in bodies if b.kind == "error"]
 
     # -- source scan: enums / structs / impl headers
@@ -413,8 +416,9 @@ class Interp:
         self.models = models.build_table(self)
         self.fid = 0
         self.defer_asserts = True
+        self.lemma_fn = None
         self.precise_casts = False
-        self.constmem = {}
+        self.constmem = prog.constmem
         self.on_branch = None
 
     # ---------------------------------------------------------------- memory
@@ -719,11 +723,21 @@ class Interp:
         if not pend:
             return res
         alls = z3.Or([z3.And(z3.And([to_z3(c) for c in st.pc[:n]] + [z3.BoolVal(True)]), z3.Not(to_z3(cond))) for _, cond, n in pend])
-        r = self.smt.check([alls], timeout_ms=timeout_ms)
+        lem = self.lemma_fn(list(st.pc) + [alls]) if self.lemma_fn else []
+        if lem:
+            from . import smt as _smt
+            r = _smt.check_nra([alls] + lem, timeout_ms=timeout_ms)
+        else:
+            r = self.smt.check([alls] + lem, timeout_ms=timeout_ms)
         if r == "unsat":
             return [(d, "holds", None) for d, _, _ in pend]
         for desc, cond, n in pend:
-            r, m = self.smt.check(list(st.pc[:n]) + [z3.Not(to_z3(cond))], timeout_ms=timeout_ms, want_model=True)
+            q = list(st.pc[:n]) + [z3.Not(to_z3(cond))]
+            if self.lemma_fn:
+                from . import smt as _smt
+                r, m, _tb = _smt.check_nra(q + self.lemma_fn(q), timeout_ms=timeout_ms, want_model=True)
+            else:
+                r, m = self.smt.check(q, timeout_ms=timeout_ms, want_model=True)
             res.append((desc, {"unsat": "holds", "sat": "violated", "unknown": "unknown"}[r], m))
             if r == "sat":
                 break
@@ -1221,8 +1235,16 @@ class Interp:
                 raise Unsupported("float division by constant zero")
             return Fraction(a) / Fraction(b)
         if is_sym(b):
-            # obligation: divisor != 0 on this path
+            # obligation: divisor != 0 on this path; quotient introduced as q with q*b == a (keeps the query polynomial)
             st.obls.append(("f64 division: divisor non-zero", b != 0, len(st.pc)))
+            self._abbr = getattr(self, "_abbr", 0) + 1
+            q = z3.Real("q!%d" % self._abbr)
+            bz = z3.ToReal(b) if z3.is_int(b) else b
+            az = to_z3(a)
+            az = z3.ToReal(az) if z3.is_int(az) else az
+            st.add(q * bz == az)
+            st.divs = getattr(st, "divs", []) + [(q, az, bz)]
+            return q
         az = to_z3(a)
         if not is_sym(b):
             bz = z3.RealVal(Fraction(b))
